@@ -185,6 +185,10 @@ class Gauleg(Entry):
                     for a, b, kind in [(0.0, 1.0, "plain"), (3.5, -2.25, "rev"), (-7.0, -3.0, "neg"), (1e-5, 3e-5, "tiny"),
                                        (2e-250, 7e-250, "tiny"), (-4e200, 9e200, "huge"), (1e12, -1e12, "rev")]:
                         cs.append({"a": hx(a), "b": hx(b), "n": n, "mom": 0, "family": "interval:" + kind})
+            if round == 0:   # how x1, x2, npts are passed: python int / numpy scalars / 0-d arrays / bool
+                for af in ("pyint", "np64", "np32", "zerod", "bool"):
+                    for n in ((1,) if af == "bool" else (1, 4, 9)):
+                        cs.append({"a": hx(-3.0), "b": hx(5.0), "n": n, "mom": 0, "argform": af, "family": "argform:" + af})
             for a, b, kind in intervals(r, ctx.n(45, 220) if round == 0 else 40):
                 n = r.choice([r.randrange(1, 12), r.randrange(1, 61), r.randrange(1, 61 if q else 201)])
                 cs.append({"a": hx(a), "b": hx(b), "n": n, "mom": 0, "family": "interval:" + kind})
@@ -212,7 +216,22 @@ class Gauleg(Entry):
         from esutil.integrate import gauleg
 
         def f():
-            x, w = gauleg(float.fromhex(c["a"]), float.fromhex(c["b"]), c["n"])
+            import numpy as np
+            a, b, n = float.fromhex(c["a"]), float.fromhex(c["b"]), c["n"]
+            af = c.get("argform", "py")
+            if af == "pyint":
+                a, b = int(a), int(b)
+            elif af == "np64":
+                a, b, n = np.float64(a), np.int64(b), np.int64(n)
+            elif af == "np32":
+                a, b, n = np.float32(a), np.int32(b), np.int32(n)
+            elif af == "zerod":
+                a, b, n = np.array(a), np.array(b), np.array(n)
+            elif af == "bool":
+                n = True
+            x, w = gauleg(a, b, n)
+            if x.dtype != np.dtype("f8") or w.dtype != np.dtype("f8") or x.ndim != 1 or w.ndim != 1:
+                raise RuntimeError("gauleg returned %s/%s arrays" % (x.dtype, w.dtype))
             return [hxl(x), hxl(w)]
         return core.guarded(f)
 
@@ -413,8 +432,62 @@ def mild_intervals(r, k):
     return out
 
 
+# ---- input forms (follow-up round): how a range / a callable / a table is handed to the code ------------
+FFORMS = {  # python kind of the integrand -> ykind of C17/Model.v
+    "def": "YFunction", "lambda": "YLambda", "method": "YMethod", "partial": "YPartial",
+    "callable_obj": "YCallableObject", "vectorize": "YVectorize", "ufunc": "YUfunc", "builtin": "YBuiltin"}
+UFUNCS = {"sin": "sin", "tanh": "tanh", "abs": "absolute", "atan": "arctan"}     # fn name -> numpy ufunc
+ARITH_FNS = ("poly5", "runge")        # identical bits for python-float and array evaluation (vectorize)
+XFORMS = ("list", "tuple", "f8", "npscalars", "zerod", "intlist", "i8", "i4", "u1", "u8", "f4")
+_INT_RANGE = {"intlist": (-50, 50), "i8": (-10 ** 6, 10 ** 6), "i4": (-2 ** 31, 2 ** 31 - 1), "u1": (0, 255), "u8": (0, 2 ** 40)}
+
+
+def range_values(r, xform):
+    """two distinct endpoints exactly representable in the form's dtype (returned as python floats);
+    integer forms sit near the top of their range (x2 + x1 overflows in the dtype) and are reversed
+    half of the time (x2 - x1 wraps for unsigned types)"""
+    import numpy as np
+    if xform in _INT_RANGE:
+        lo, hi = _INT_RANGE[xform]
+        if xform in ("i4", "u1"):
+            a = r.randrange(hi - (hi - lo) // 3, hi)
+            b = r.randrange(hi - (hi - lo) // 3, hi + 1)
+        else:
+            a, b = r.randrange(lo, hi), r.randrange(lo, hi + 1)
+        if a == b:
+            b = a - 1 if a > lo else a + 1
+        return float(a), float(b)
+    if xform == "f4":
+        a = float(np.float32(r.uniform(-5, 5)))
+        b = float(np.float32(a + r.choice([-1, 1]) * r.uniform(0.1, 8)))
+        return a, b
+    return None
+
+
+def make_range(x1, x2, xform):
+    import numpy as np
+    if xform == "list":
+        return [x1, x2]
+    if xform == "tuple":
+        return (x1, x2)
+    if xform == "f8":
+        return np.array([x1, x2])
+    if xform == "npscalars":
+        return [np.float64(x1), np.float64(x2)]
+    if xform == "zerod":
+        return [np.array(x1), np.array(x2)]
+    if xform == "intlist":
+        return [int(x1), int(x2)]
+    arr = np.array([int(x1), int(x2)] if xform != "f4" else [x1, x2], dtype=xform)
+    if [float(v) for v in arr] != [x1, x2]:
+        raise RuntimeError("harness: range %r not representable as %s" % ((x1, x2), xform))
+    return arr
+
+
 class Func(Entry):
-    """QGauss(npts).integrate([x1,x2], func), integrate(..., npts=), integrate_func, qgauss"""
+    """QGauss(npts).integrate([x1,x2], func), integrate(..., npts=), integrate_func, qgauss; the integrand as
+    def / lambda / bound method / functools.partial / object with __call__ / numpy.vectorize / numpy ufunc /
+    builtin; the range as list / tuple / arrays of several dtypes / numpy scalars / 0-d arrays"""
     name = "integrate_func"
     shard = 10
     shard_quick = 14
@@ -423,18 +496,45 @@ class Func(Entry):
         r = ctx.rng
         cs = []
         names = sorted(_funcs())
+        q = ctx.quick()
         for a, b, kind in mild_intervals(r, ctx.n(55, 250) if round == 0 else 40):
-            n = r.choice([r.randrange(1, 10), r.randrange(1, 41), r.randrange(1, 61 if ctx.quick() else 201),
-                          r.choice([7, 8, 9, 127, 128, 129, 130, 136, 137] if not ctx.quick() else [7, 8, 9, 15, 16, 17])])
+            n = r.choice([r.randrange(1, 10), r.randrange(1, 41), r.randrange(1, 61 if q else 201),
+                          r.choice([7, 8, 9, 127, 128, 129, 130, 136, 137] if not q else [7, 8, 9, 15, 16, 17, 128, 129])])
             cs.append({"x1": hx(a), "x2": hx(b), "n": n, "fn": r.choice(names),
                        "via": r.choice(["integrate", "integrate_npts", "integrate_func", "qgauss"]),
                        "family": "func:" + kind})
+        # forms of the integrand (dispatch of QGauss.integrate) and of the range
+        forms = []
+        if round == 0:
+            forms += [(ff, "list") for ff in sorted(FFORMS)] + [("def", xf) for xf in XFORMS]
+        for _ in range(ctx.n(14, 80) if round == 0 else 10):
+            forms.append((r.choice(sorted(FFORMS)), r.choice(XFORMS)))
+        for fform, xform in forms:
+            if fform == "ufunc":
+                fn = r.choice(sorted(UFUNCS))
+            elif fform == "builtin":
+                fn = "abs"
+            elif fform == "vectorize":
+                fn = r.choice(ARITH_FNS)
+            else:
+                fn = r.choice(names)
+            rv = range_values(r, xform)
+            if rv is None:
+                a, b, _k = mild_intervals(r, 1)[0]
+            else:
+                a, b = rv
+            via = r.choice(["integrate", "integrate_npts", "qgauss", "integrate_pos"]) if fform != "def" else \
+                r.choice(["integrate", "integrate_npts", "integrate_func", "qgauss", "integrate_pos"])
+            cs.append({"x1": hx(a), "x2": hx(b), "n": r.choice([1, 2, 3, 5, 8, 13, 20]), "fn": fn, "via": via,
+                       "fform": fform, "xform": xform, "family": "form:%s/%s" % (fform, xform)})
         return cs
 
     def impl(self, c):
+        import functools
         import numpy as np
         import esutil.integrate as ig
         f0 = _funcs()[c["fn"]]
+        fform, xform = c.get("fform", "def"), c.get("xform", "list")
         rec = {}
 
         def func(xi):
@@ -443,29 +543,76 @@ class Func(Entry):
             rec["ys"] = y.copy()
             return y
 
+        def func_kw(xi, scale=None):
+            return func(xi)
+
+        class Holder(object):
+            def meth(self, xi):
+                return func(xi)
+
+            def __call__(self, xi):
+                return func(xi)
+
+        observed = True
+        if fform == "def":
+            f = func
+        elif fform == "lambda":
+            f = lambda xi: func(xi)   # noqa: E731
+        elif fform == "method":
+            f = Holder().meth
+        elif fform == "partial":
+            f = functools.partial(func_kw, scale=1.0)
+        elif fform == "callable_obj":
+            f = Holder()
+        else:                       # objects that cannot record their argument: twin run with a recorder
+            observed = False
+            if fform == "ufunc":
+                f = getattr(np, UFUNCS[c["fn"]])
+            elif fform == "builtin":
+                f = abs
+            else:
+                f = np.vectorize(lambda t: float(f0(t)))
+
+        def call(fun, rng, n):
+            if c["via"] == "integrate":
+                return ig.QGauss(n).integrate(rng, fun)
+            if c["via"] == "integrate_npts":
+                return ig.QGauss().integrate(rng, fun, npts=n)
+            if c["via"] == "integrate_pos":
+                return ig.QGauss(None).integrate(rng, fun, n)
+            if c["via"] == "integrate_func":
+                return ig.QGauss(n).integrate_func(rng, fun)
+            return ig.qgauss(rng, fun, n)
+
         def run():
             x1, x2, n = float.fromhex(c["x1"]), float.fromhex(c["x2"]), c["n"]
             zs, ws = ig.gauleg(-1.0, 1.0, n)
-            if c["via"] == "integrate":
-                res = ig.QGauss(n).integrate([x1, x2], func)
-            elif c["via"] == "integrate_npts":
-                res = ig.QGauss().integrate([x1, x2], func, npts=n)
-            elif c["via"] == "integrate_func":
-                res = ig.QGauss(n).integrate_func([x1, x2], func)
-            else:
-                res = ig.qgauss([x1, x2], func, n)
+            res = call(f, make_range(x1, x2, xform), n)
+            if not observed:
+                # what the callable was given cannot be recorded: record it on a twin run with a plain
+                # function of the same mathematics and the plain range (the model then has to reproduce
+                # the result of the ORIGINAL call from these abscissae and values)
+                ig.QGauss(n).integrate_func([x1, x2], func)
             return {"zs": hxl(zs), "ws": hxl(ws), "xi": hxl(rec["xi"]), "ys": hxl(rec["ys"]), "res": hx(res)}
         return core.guarded(run)
 
     def term(self, c, out):
+        k = FFORMS[c.get("fform", "def")]
         if out[0] != "ok":
-            return "v_func %s %s [] [] [] [] (Err %s)" % (cf(c["x1"]), cf(c["x2"]), out[1])
+            return "v_func_k %s %s %s [] [] [] [] (Err %s)" % (k, cf(c["x1"]), cf(c["x2"]), out[1])
         o = out[1]
-        return "v_func %s %s %s %s %s %s (Ok %s)" % (cf(c["x1"]), cf(c["x2"]), cfl(o["zs"]), cfl(o["ws"]),
-                                                     cfl(o["xi"]), cfl(o["ys"]), cf(o["res"]))
+        return "v_func_k %s %s %s %s %s %s %s (Ok %s)" % (k, cf(c["x1"]), cf(c["x2"]), cfl(o["zs"]), cfl(o["ws"]),
+                                                          cfl(o["xi"]), cfl(o["ys"]), cf(o["res"]))
 
     def nontrivial(self, c, out):
         return c["n"] >= 2 and c["fn"] != "const"
+
+    def classify(self, c, out, v):
+        if v >= 2 and c.get("fform", "def") not in ("def", "lambda", "method") and c["via"] != "integrate_func":
+            return "C17.kf_callable_not_function"
+        if v >= 2 and c.get("xform", "list") in ("i8", "i4", "u1", "u8", "f4", "intlist"):
+            return "C17.kf_input_dtype_arithmetic"
+        return None
 
 
 class Data(Entry):
@@ -510,34 +657,123 @@ class Data(Entry):
             n = r.choice([r.randrange(1, 8), r.randrange(1, 41)])
             cs.append({"xv": hxl(xs), "yv": hxl(ys), "n": n, "via": r.choice(["integrate", "integrate_data", "qgauss"]),
                        "family": "data:%s/%s" % (spacing, yk)})
+        cs += self.form_cases(ctx, round)
         return cs
+
+    XDT = ("f8", "f4", "i8", "i4", "i2", "u1", "u2", ">f8", ">i4", "list", "tuple")
+    YDT = ("f8", "f4", "i8", "i4", "u1", "u2", ">f8", "list", "tuple")
+    LAYOUTS = ("contig", "strided", "negstride", "readonly", "column")
+    _TOP = {"i8": 10 ** 6, "i4": 2 ** 31 - 1, ">i4": 2 ** 31 - 1, "i2": 2 ** 15 - 1, "u1": 255, "u2": 2 ** 16 - 1}
+
+    def form_cases(self, ctx, round):
+        """tables as integer / float32 / big-endian arrays, lists and tuples; strided, negative-stride, read-only
+        and column views; long tables (2^k + 1 points).  The values are exactly representable in the dtype
+        (an integer or float32 table denotes exact reals); integer abscissae sit near the top of their
+        type's range (x2 + x1 overflows in the dtype) and integer ordinates decrease (differences wrap)."""
+        import numpy as np
+        r = ctx.rng
+        cs = []
+        combos = []
+        if round == 0:
+            combos += [(xd, "f8", "contig") for xd in self.XDT] + [("f8", yd, "contig") for yd in self.YDT]
+            combos += [("f8", "f8", lay) for lay in self.LAYOUTS] + [("u1", "u1", "strided"), ("i2", "u2", "negstride"), ("f4", "f4", "readonly")]
+        for _ in range(ctx.n(10, 70) if round == 0 else 8):
+            combos.append((r.choice(self.XDT), r.choice(self.YDT), r.choice(self.LAYOUTS)))
+        for xd, yd, lay in combos:
+            npt = r.choice([2, 3, 5, 9, 17])
+            if xd in self._TOP:
+                top = self._TOP[xd]
+                span = min(top, 200) if xd == "u1" else min(top // 2, 30000)
+                xs = sorted(set(top - r.randrange(0, span) for _i in range(npt)))
+            elif xd == "f4":
+                xs = sorted(set(float(np.float32(r.uniform(-20, 20))) for _i in range(npt)))
+            else:
+                xs = sorted(set(r.uniform(-20, 20) for _i in range(npt)))
+            if len(xs) < 2:
+                continue
+            if yd in ("i8", "i4", "u1", "u2"):
+                ytop = {"i8": 10 ** 9, "i4": 2 ** 31 - 1, "u1": 255, "u2": 65535}[yd]
+                ys = sorted((r.randrange(0, ytop + 1) for _i in xs), reverse=r.random() < 0.7)
+            elif yd == "f4":
+                ys = [float(np.float32(r.uniform(-5, 5))) for _i in xs]
+            else:
+                ys = [r.uniform(-5, 5) for _i in xs]
+            cs.append({"xv": hxl(xs), "yv": hxl(ys), "n": r.choice([1, 2, 3, 5, 8, 13]), "xdt": xd, "ydt": yd, "layout": lay,
+                       "via": r.choice(["integrate", "integrate_data", "qgauss", "integrate_pos"]),
+                       "family": "form:%s/%s/%s" % (xd, yd, lay)})
+        if round == 0:       # long tables: 2^k + 1 points (searchsorted / take / interpolation over many rows)
+            for npt in ([4097] if ctx.quick() else [4097, 16385]):
+                h = 1.0 / 1024
+                xs = [-2.0 + h * i + (h / 4 if i % 3 == 1 else 0.0) for i in range(npt)]
+                ys = [math.sin(0.7 * x) + 0.1 * x for x in xs]
+                cs.append({"xv": hxl(xs), "yv": hxl(ys), "n": 5, "xdt": "f8", "ydt": "f8", "layout": "contig",
+                           "via": "integrate", "family": "form:long table %d" % npt})
+        return cs
+
+    @staticmethod
+    def make_table(vals, dt, layout):
+        import numpy as np
+        if dt in ("list", "tuple"):
+            seq = [float(v) for v in vals]
+            return seq if dt == "list" else tuple(seq)
+        isint = np.dtype(dt).kind in "iu"
+        base = np.array([int(v) for v in vals] if isint else vals, dtype=dt)
+        if [float(v) for v in base] != [float(v) for v in vals]:
+            raise RuntimeError("harness: values not representable as %s" % dt)
+        if layout == "strided":
+            big = np.zeros(2 * len(base), dtype=dt)
+            big[::2] = base
+            return big[::2]
+        if layout == "negstride":
+            return np.ascontiguousarray(base[::-1])[::-1]
+        if layout == "readonly":
+            a = base.copy()
+            a.flags.writeable = False
+            return a
+        if layout == "column":
+            big = np.zeros((len(base), 3), dtype=dt, order="C")
+            big[:, 1] = base
+            return big[:, 1]
+        return base
 
     def impl(self, c):
         import numpy as np
         import esutil.integrate as ig
 
         def run():
-            xv = np.array([float.fromhex(h) for h in c["xv"]])
-            yv = np.array([float.fromhex(h) for h in c["yv"]])
+            xv = self.make_table([float.fromhex(h) for h in c["xv"]], c.get("xdt", "f8"), c.get("layout", "contig"))
+            yv = self.make_table([float.fromhex(h) for h in c["yv"]], c.get("ydt", "f8"), c.get("layout", "contig"))
+            snap = lambda t: t.tobytes() if hasattr(t, "tobytes") else repr(t)   # noqa: E731
+            keep = (snap(xv), snap(yv))
             n = c["n"]
             zs, ws = ig.gauleg(-1.0, 1.0, n)
             if c["via"] == "integrate":
                 res = ig.QGauss(n).integrate(xv, yv)
             elif c["via"] == "integrate_data":
                 res = ig.QGauss().integrate_data(xv, yv, npts=n)
+            elif c["via"] == "integrate_pos":
+                res = ig.QGauss().integrate(xv, yv, n)
             else:
                 res = ig.qgauss(xv, yv, n)
+            if (snap(xv), snap(yv)) != keep:
+                raise RuntimeError("the integrator modified its input tables")
             return {"zs": hxl(zs), "ws": hxl(ws), "res": hx(res)}
         return core.guarded(run)
 
     def term(self, c, out):
+        k = {"list": "YList", "tuple": "YTuple"}.get(c.get("ydt", "f8"), "YArray")
         if out[0] != "ok":
-            return "v_data [] [] %s %s (Err %s)" % (cfl(c["xv"]), cfl(c["yv"]), out[1])
+            return "v_data_k %s [] [] %s %s (Err %s)" % (k, cfl(c["xv"]), cfl(c["yv"]), out[1])
         o = out[1]
-        return "v_data %s %s %s %s (Ok %s)" % (cfl(o["zs"]), cfl(o["ws"]), cfl(c["xv"]), cfl(c["yv"]), cf(o["res"]))
+        return "v_data_k %s %s %s %s %s (Ok %s)" % (k, cfl(o["zs"]), cfl(o["ws"]), cfl(c["xv"]), cfl(c["yv"]), cf(o["res"]))
 
     def nontrivial(self, c, out):
         return c["n"] >= 2 and len(c["xv"]) >= 3
+
+    def classify(self, c, out, v):
+        if v >= 2 and (c.get("xdt", "f8") not in ("f8", ">f8") or c.get("ydt", "f8") not in ("f8", ">f8", "list", "tuple")):
+            return "C17.kf_input_dtype_arithmetic"
+        return None
 
 
 class Func2(Entry):
@@ -562,7 +798,27 @@ class Func2(Entry):
             (a, b, k1), (c_, d, k2) = mild_intervals(r, 2)
             cs.append({"nx": nx, "ny": ny, "x1": hx(a), "x2": hx(b), "y1": hx(c_), "y2": hx(d), "fn": r.choice(names),
                        "family": "2d:" + ("square" if nx == ny else "nx!=ny")})
+        # forms of the two ranges; grids whose size sits at numpy's pairwise-summation block boundaries (8, 128)
+        forms = [(xf, yf) for xf, yf in zip(XFORMS, reversed(XFORMS))] if round == 0 else []
+        for _ in range(ctx.n(4, 30) if round == 0 else 4):
+            forms.append((r.choice(XFORMS), r.choice(XFORMS)))
+        for xf, yf in forms:
+            rx, ry = range_values(r, xf), range_values(r, yf)
+            (a, b, _k1), (c_, d, _k2) = mild_intervals(r, 2)
+            if rx is not None:
+                a, b = rx
+            if ry is not None:
+                c_, d = ry
+            nx, ny = r.choice([(1, 7), (7, 1), (3, 3), (1, 8), (2, 4), (3, 43), (43, 3), (1, 129), (8, 16), (4, 5)])
+            cs.append({"nx": nx, "ny": ny, "x1": hx(a), "x2": hx(b), "y1": hx(c_), "y2": hx(d), "fn": r.choice(names),
+                       "xform": xf, "yform": yf, "family": "form2d:%s/%s" % (xf, yf)})
         return cs
+
+    def classify(self, c, out, v):
+        ints = ("i8", "i4", "u1", "u8", "f4", "intlist")
+        if v >= 2 and (c.get("xform", "list") in ints or c.get("yform", "list") in ints):
+            return "C17.kf_input_dtype_arithmetic"
+        return None
 
     def impl(self, c):
         import numpy as np
@@ -581,8 +837,8 @@ class Func2(Entry):
             x, wx = ig.gauleg(-1.0, 1.0, c["nx"])
             y, wy = ig.gauleg(-1.0, 1.0, c["ny"])
             qg = ig.QGauss2(c["nx"], c["ny"])
-            res = qg.integrate_func([float.fromhex(c["x1"]), float.fromhex(c["x2"])],
-                                    [float.fromhex(c["y1"]), float.fromhex(c["y2"])], func)
+            res = qg.integrate_func(make_range(float.fromhex(c["x1"]), float.fromhex(c["x2"]), c.get("xform", "list")),
+                                    make_range(float.fromhex(c["y1"]), float.fromhex(c["y2"]), c.get("yform", "list")), func)
             wshape = [int(k) for k in qg.wgrid.shape]
             ishape = [int(k) for k in np.broadcast_shapes(rec["zv"].shape, qg.wgrid.shape)]
             if len(wshape) != 2 or len(ishape) != 2:
@@ -636,8 +892,16 @@ class History(Entry):
                 ops[r.randrange(len(ops))] = r.choice([0, -2])
                 fam = "history:rejected-count"
             a, b, _k = mild_intervals(r, 1)[0]
-            cs.append({"n0": n0, "ops": ops, "fn": r.choice(names), "x1": hx(a), "x2": hx(b),
-                       "kind": r.choice(["func", "func", "data"]), "family": fam})
+            c = {"n0": n0, "ops": ops, "fn": r.choice(names), "x1": hx(a), "x2": hx(b),
+                 "kind": r.choice(["func", "func", "data"]), "family": fam}
+            if r.random() < 0.5:
+                # how each call passes npts (keyword / positional / omitted / numpy integer types) and whether
+                # it integrates the function or the table: the cache must not care
+                c["styles"] = [r.choice(["kw", "pos", "np64", "np32"] if n is not None else ["kw", "omit", "pos"]) for n in ops]
+                c["kinds"] = [r.choice(["func", "data"]) for _n in ops]
+                c["n0style"] = r.choice(["py", "np64", "np32"])
+                c["family"] = fam + "/mixed"
+            cs.append(c)
         return cs
 
     def impl(self, c):
@@ -648,20 +912,30 @@ class History(Entry):
 
         def func(xi):
             return f0(xi)
-        if c["kind"] == "data":
-            lo, hi = min(x1, x2), max(x1, x2)
-            xv = np.linspace(lo, hi, 17) + 0.01 * (hi - lo) * np.sin(np.arange(17.0)) * (np.arange(17) % 16 != 0)
-            xv = np.sort(xv)
-            args = (xv, np.array(f0(xv), dtype="f8"))
-        else:
-            args = ([x1, x2], func)
+        lo, hi = min(x1, x2), max(x1, x2)
+        xv = np.linspace(lo, hi, 17) + 0.01 * (hi - lo) * np.sin(np.arange(17.0)) * (np.arange(17) % 16 != 0)
+        xv = np.sort(xv)
+        allargs = {"data": (xv, np.array(f0(xv), dtype="f8")), "func": ([x1, x2], func)}
+        kinds = c.get("kinds") or [c["kind"]] * len(c["ops"])
+        styles = c.get("styles") or ["kw"] * len(c["ops"])
+
+        def conv(n, style):
+            if n is None:
+                return None
+            return {"np64": np.int64, "np32": np.int32}.get(style, int)(n)
 
         def run():
-            qg = ig.QGauss(c["n0"])
+            qg = ig.QGauss(conv(c["n0"], c.get("n0style", "py")))
             obs = []
-            for n in c["ops"]:
+            for n, kind, style in zip(c["ops"], kinds, styles):
+                args = allargs[kind]
                 try:
-                    res = qg.integrate(args[0], args[1], npts=n)
+                    if style == "omit":
+                        res = qg.integrate(args[0], args[1])
+                    elif style == "pos":
+                        res = qg.integrate(args[0], args[1], conv(n, style))
+                    else:
+                        res = qg.integrate(args[0], args[1], npts=conv(n, style))
                     k = len(qg.xxi)
                     fresh = ig.QGauss(k).integrate(args[0], args[1])
                     obs.append(["ok", k, hx(res), hx(fresh)])
